@@ -248,6 +248,55 @@ def additive_top(tree) -> bool:
     return (tree[0] == "bin" and tree[1] in "+-") or tree[0] == "forsum"
 
 
+def int_kind(tree, subs):
+    """for a names-free subtree: 'py' when it evaluates with Python integers only, 'np' when a numpy function (abs, maximum,
+    minimum) turns it into a numpy integer scalar, None when it is (or may be) a float -- assuming integer literals are spelled
+    as integers (whether they are is a choice of the rendering)"""
+    k = tree[0]
+    if k == "num":
+        return "py" if frac(tree[1]).denominator == 1 else None
+    if k == "neg":
+        return int_kind(tree[1], subs)
+    if k == "subs":
+        return int_kind(subs[tree[1]], subs)
+    if k == "bin":
+        a, b = int_kind(tree[2], subs), int_kind(tree[3], subs)
+        if a is None or b is None or tree[1] == "/":
+            return None
+        if tree[1] == "^":
+            try:
+                e = ev(tree[3], {}, 0, subs, set(), True)
+            except Exception:
+                return None
+            if e < 0:
+                return None
+        return "np" if "np" in (a, b) else "py"
+    if k == "f1" and tree[1] in ("abs", "dbl", "sq"):
+        a = int_kind(tree[2], subs)
+        return None if a is None else ("np" if tree[1] == "abs" else a)
+    if k == "f2" and tree[1] in ("maximum", "minimum"):
+        a, b = int_kind(tree[2], subs), int_kind(tree[3], subs)
+        return None if (a is None or b is None) else "np"
+    return None
+
+
+def has_int_const_to_negative_power(tree, subs) -> bool:
+    """is there a `base ^ exponent` whose base is an integer-valued constant subexpression that goes through a numpy function
+    (so that it is a numpy integer scalar) and whose exponent is a constant negative integer? numpy refuses that power."""
+    if not isinstance(tree, list) or not tree:
+        return False
+    if tree[0] == "bin" and tree[1] == "^" and int_kind(tree[2], subs) == "np":
+        try:
+            e = ev(tree[3], {}, 0, subs, set(), True)
+            if e.denominator == 1 and e < 0 and int_kind(tree[3], subs) is not None:
+                return True
+        except Exception:
+            pass
+    if tree[0] == "subs":
+        return has_int_const_to_negative_power(subs[tree[1]], subs)
+    return any(has_int_const_to_negative_power(x, subs) for x in tree[1:] if isinstance(x, list))
+
+
 def eqn_is_exact(eqn, subs) -> bool:
     parts = eqn[1:]
     tot, ex = 0, 0
